@@ -86,6 +86,11 @@ pub struct Profile {
     /// width* (two replicas put on the same element of a shared text concurrently, then merge) - a prior state the
     /// random part of a short run almost never builds by itself (measured: 1 splice in 53 000 met one)
     pub text_conflict_prologue_permille: u32,
+    /// permille of runs that start with a *ladder*: replicas 0 and 1 alternately commit and merge each other's work for
+    /// 26..44 rounds, so that the change graph is deep, every change has two parents, and the number of paths through it is
+    /// exponential in its depth while the number of changes stays below a hundred (anything that walks paths instead of
+    /// nodes - sync's hashes-to-send, clocks, topological sorts - meets its worst case); other replicas start without it
+    pub ladder_prologue_permille: u32,
     /// long single-actor chains (to reach clock caches / slab splits)
     pub long_chain_permille: u32,
     pub bloom_fp: Vec<u32>,
@@ -162,6 +167,7 @@ impl Default for Profile {
             big_permille: 80,
             swarm: true,
             text_conflict_prologue_permille: 0,
+            ladder_prologue_permille: 0,
             long_chain_permille: 30,
             bloom_fp: vec![0],
             encs: vec![Enc::CodePoint, Enc::Utf8, Enc::Utf16, Enc::Grapheme],
@@ -596,6 +602,20 @@ pub fn gen_run(seed: u64, p: &Profile) -> (Cfg, Vec<Ev>) {
         if prng.bool() {
             evs.push(Ev::Merge { from: 0, to: fork });
         }
+        evs.extend(tail);
+    }
+    if prng.chance(p.ladder_prologue_permille) && replicas >= 2 {
+        let rounds = 26 + prng.usize(19);
+        let mut pro = Vec::with_capacity(rounds * 6);
+        for i in 0..rounds {
+            for (me, other) in [(0u8, 1u8), (1u8, 0u8)] {
+                pro.push(Ev::Edit { r: me, op: EditOp::Put { obj: ObjSel::Root, key: (i as u32) << 10 | 1 << 9 | 1, val: SvE::Int(i as i64) } });
+                pro.push(Ev::Commit { r: me, msg: None, dt: 1 });
+                pro.push(Ev::Merge { from: me, to: other });
+            }
+        }
+        let tail = std::mem::take(&mut evs);
+        evs = pro;
         evs.extend(tail);
     }
     (cfg, evs)
